@@ -15,7 +15,7 @@ EXPLANATION = (
     "tokens and stops at the last component boundary, over all invariance / boundary patterns of lists up to length 3 (4 in the thorough tier).  Not "
     "decided: that a flag among the popped tokens still applies to the displayed postfix (`a/(?i)b/c*` -> `c*`): flags are not tokens.  "
     "(text) for ~850 texts with an invariant prefix in front of a variant postfix - flags before and inside the prefix, escapes, multi-byte text, invariant groups, rooted and `..` prefixes - the parser (its THIR, nom model) and Tokenized::partition are both evaluated, borrowed and owned: the expression of the postfix is a suffix of the text, its tokens are the remaining tokens, every remaining span delimits the text it delimited before, and building the displayed postfix again (the parser once more) gives the same tokens with the same spans.  This rule takes the spans from the parser instead of assuming their shape.")
-RULES = "C08.law (TABLE on a catalogue: languages of glob, prefix and postfix), C08.recompile (PROV), C08.unroot + C08.bytes (EFFECT), C08.prefix (TABLE), C08.text (TABLE on a text catalogue: parser + partition, the displayed postfix built again)"
+RULES = "C08.law (TABLE on a catalogue: languages of glob, prefix and postfix), C08.recompile (PROV), C08.unroot + C08.bytes (EFFECT), C08.prefix (TABLE), C08.text (TABLE on a text catalogue: parser + partition, the displayed postfix built again), C08.fallback (TABLE: partition_or_empty / partition_or_tree)"
 
 
 def tok(kind_leaf, start, length):
@@ -51,6 +51,7 @@ def run(ctx):
     exhaust.report_query(F, R, "C08.law", ctx.tier, "partition", 10000, 1500)
     from . import parsecat
     parsecat.report_partition(F, R, "C08.text")
+    rule_fallback(F, R)
 
 
 def rule_partition(F, R):
@@ -221,3 +222,45 @@ def rule_prefix(F, R, maxlen):
                            "the longest run of text-invariant tokens ending at a component boundary, and text is appended only for "
                            "invariant tokens" % (list(pattern), got, want), it.where())
     R.floor("C08.prefix", "token patterns", n, 80)
+
+
+def rule_fallback(F, R):
+    """C08.fallback (TABLE): `partition_or_empty` / `partition_or_tree` return the prefix and the postfix of
+    `Glob::partition` unchanged, and only when there is no postfix the empty glob (built from the empty expression) /
+    the tree glob (built from `**`) in its place."""
+    from ..teval import Interp
+    for name, text in (("partition_or_empty", ""), ("partition_or_tree", "**")):
+        it = F.find("Glob::" + name, optional=True)
+        if it is None:
+            R.anchor_missing("C08.fallback", "Glob::" + name)
+            continue
+        for has_postfix in (True, False):
+            built = []
+
+            def new(I, a, fn, e):
+                s = strip(a[0])
+                if isinstance(s, StrB):
+                    s = s.text()
+                built.append(s)
+                return ok(Adt("Glob", "Glob", {"tree": Sym("tree-of(%r)" % (s,)), "program": Sym("program-of(%r)" % (s,))}))
+            post = Adt("Glob", "Glob", {"tree": Sym("postfix-tree"), "program": Sym("postfix-program")})
+            stubs = {"Glob::new": new,
+                     "Glob::partition": lambda I, a, fn, e: Tup([Sym("prefix-path"), some(post) if has_postfix else none()])}
+            I = Interp(F, stubs)
+            me = Adt("Glob", "Glob", {"tree": Sym("tree"), "program": Sym("program")})
+
+            def run():
+                del built[:]
+                return I.call_item(it, [me])
+            cases = I.explore(run)
+            res = strip(cases[0].result) if len(cases) == 1 else None
+            good = False
+            if isinstance(res, Tup) and len(res.items) == 2:
+                p, g = strip(res.items[0]), strip(res.items[1])
+                if isinstance(p, Sym) and p.name == "prefix-path" and isinstance(g, Adt):
+                    t = strip(g.fields.get("tree"))
+                    want = "postfix-tree" if has_postfix else "tree-of(%r)" % (text,)
+                    good = isinstance(t, Sym) and t.name == want
+            R.check(good, "C08.fallback", "%s/%s" % (name, "postfix" if has_postfix else "no postfix"),
+                    "the prefix and %s" % ("the postfix itself" if has_postfix else "the glob built from `%s`" % text), it.where(),
+                    fail_msg="Glob::%s with %s returns %r (globs built: %s)" % (name, "a postfix" if has_postfix else "no postfix", res, built))
